@@ -29,7 +29,7 @@ var lifeScenarios = []string{
 	"closenow-reader-blocked", "closenow-writer-blocked", "closenow-idle", "close-reader-blocked-echo",
 	"closeread-data-echo", "closeread-data-silent", "closeread-peer-close", "closeread-then-closenow",
 	"close-unmarshalable-reason", "close-invalid-code", "close-unmarshalable-reason-closeread",
-	"emptyfin-read-then-cancel", "closeread-twice-closenow", "closeread-twice-data", "closeread-derived-contexts-closenow",
+	"stream-write-pong-between-then-cancel", "cancel-during-stream-write", "emptyfin-read-then-cancel", "closeread-twice-closenow", "closeread-twice-data", "closeread-derived-contexts-closenow",
 	"peer-close-then-close", "proto-error-then-close", "transport-failure-then-close", "abandoned-reader-close", "abandoned-writer-close", "netconn-close",
 }
 
@@ -121,7 +121,7 @@ func runLife(kv map[string]string) string {
 		echo = false
 	}
 	e := &lifeEnv{c: c, raw: raw, role: role}
-	e.checkRearm = strings.HasSuffix(scen, "-then-cancel") && scen != "ping-then-cancel"
+	e.checkRearm = strings.HasSuffix(scen, "-then-cancel") && scen != "ping-then-cancel" && scen != "stream-write-pong-between-then-cancel"
 	if scen != "close-peer-never-reads" && scen != "cancel-during-write" && scen != "closenow-writer-blocked" {
 		e.peer = startAutoPeer(raw, role, echo)
 	}
@@ -245,6 +245,43 @@ func runLife(kv map[string]string) string {
 		e.dur -= 100 * time.Millisecond
 		raw.Stall(false)
 		closedObs = closedAfter()
+	case "stream-write-pong-between-then-cancel", "cancel-during-stream-write":
+		// a streamed message whose frames are separated by a control frame written by somebody else (the Pong the reader
+		// sends for the peer's Ping): every one of its frames must still be written under its context
+		crctx := c.CloseRead(bg)
+		_ = crctx
+		ctx1, cancel1 := context.WithCancel(bg)
+		w, err := c.Writer(ctx1, websocket.MessageBinary)
+		if err == nil {
+			_, err = w.Write([]byte("first chunk"))
+		}
+		e.step(err)
+		send(rawFrame{Fin: true, Opcode: 9, Payload: []byte("pp")}) // the library answers with a Pong in between
+		time.Sleep(60 * time.Millisecond)
+		if scen == "stream-write-pong-between-then-cancel" {
+			_, err = w.Write([]byte("second chunk"))
+			if err == nil {
+				err = w.Close()
+			}
+			e.step(err)
+			cancel1()
+			time.Sleep(60 * time.Millisecond)
+			e.step(c.Write(bg, websocket.MessageText, []byte("after")))
+			closedObs = closedAfter()
+		} else {
+			raw.Stall(true)
+			go func() { time.Sleep(100 * time.Millisecond); cancel1() }()
+			measureT(func() error {
+				var err error
+				for i := 0; i < 64 && err == nil; i++ { // fill the bufio and block in the transport, inside a continuation frame
+					_, err = w.Write(make([]byte, 8192))
+				}
+				return err
+			}, 6*time.Second)
+			e.dur -= 100 * time.Millisecond
+			raw.Stall(false)
+			closedObs = closedAfter()
+		}
 	case "cancel-before-read", "cancel-before-write":
 		ctx1, cancel1 := context.WithCancel(bg)
 		cancel1()
@@ -513,6 +550,7 @@ func runLife(kv map[string]string) string {
 	armBad := ""
 	lastArm := map[string]int{} // per goroutine+side: last arm value b
 	held := map[string]bool{}   // goroutine holds the side's mutex
+	armedW := map[string]bool{} // goroutine has armed the write side since it took the frame lock
 	for _, ev := range tr {
 		g := fmt.Sprint(ev.G)
 		switch ev.Ev {
@@ -531,6 +569,14 @@ func runLife(kv map[string]string) string {
 				held[g+":0"] = true
 			} else if ev.Mu == websocket.VerifMuFrame {
 				held[g+":1"] = true
+				if ev.Ev == websocket.VerifEvLock {
+					armedW[g] = false // a new frame section begins: its context has to be handed to the timeout goroutine
+				}
+			}
+		case websocket.VerifEvFrame:
+			// C10: EVERY frame is written with the caller's context armed (otherwise a write that blocks ignores cancellation)
+			if !armedW[g] && armBad == "" {
+				armBad = fmt.Sprintf("frame-written-without-arming:opcode%d", ev.A)
 			}
 		case websocket.VerifEvUnlock:
 			if ev.Mu == websocket.VerifMuRead {
@@ -544,6 +590,9 @@ func runLife(kv map[string]string) string {
 				armBad = fmt.Sprintf("arm-without-mutex:side%d", ev.A)
 			}
 			lastArm[k] = ev.B
+			if ev.A == 1 {
+				armedW[g] = ev.B == 1
+			}
 		}
 	}
 	gor := "ok"
